@@ -353,6 +353,20 @@ def binop(op, a, b):
             for n2 in nums[1:]:
                 acc = fold(op, acc, n2)
             nums = [acc]
+        if op == "*" and len(rest) > 1:
+            # x * x * x  ==  x ** 3
+            counted = []
+            for x in rest:
+                base, k = x, 1
+                if x[0] == "bin" and x[1] == "**" and is_num(x[3]) and isinstance(x[3][1], int) and x[3][1] > 0:
+                    base, k = x[2], x[3][1]
+                for ent in counted:
+                    if ent[0] == base:
+                        ent[1] += k
+                        break
+                else:
+                    counted.append([base, k])
+            rest = [x if k == 1 else ("bin", "**", x, num(k)) for x, k in counted]
         ident = 1 if op == "*" else 0
         if nums and nums[0][1] == ident and rest and not isinstance(nums[0][1], bool):
             nums = []          # x * 1, x + 0
@@ -674,7 +688,7 @@ def compare(code, ref, policy: Policy) -> List[Mismatch]:
         for ch in kids:
             if D.size(ch) * 10 >= D.size(small) * 6:
                 sub = go(ch, small) if code_side else go(small, ch)
-                if not has_shape(sub) and not any(m.kind == "structure" for m in sub):
+                if not has_shape(sub) and sum(1 for m in sub if m.kind == "structure") <= 2:
                     if best is None or wcost(sub) < wcost(best):
                         best = sub
         return best
